@@ -531,7 +531,7 @@ def run_split(tape, res, sc):
 # (b) accumulators under scribble faults
 
 ACCS = ["Sum", "DSum", "Mean", "MeanSum", "VarianceMeanCount", "Vectorize", "Count", "Histogram",
-        "SplitIntoBins", "VectorizeStore"]
+        "SplitIntoBins", "VectorizeStore", "Graph"]
 WRAPPERS = ["bare", "bare", "FillComputeSeq", "Split", "Zip", "FillRequest"]
 
 
@@ -551,6 +551,9 @@ def make_acc(name):
     if name == "VectorizeStore":
         # the component accumulators yield one result per filled value: several results per compute
         return lena.math.Vectorize(lena.flow.StoreFilled(yield_as_a_group=False), dim=2)
+    if name == "Graph":
+        # deprecated element; yields (itself, a context built from the last filled one)
+        return lena.structures.Graph()
     if name == "Count":
         return lena.flow.Count("cnt")
     if name == "Histogram":
@@ -579,7 +582,7 @@ def gen_acc(tape, sc):
     sc.acc = tape.choice(ACCS, "acc")
     sc.wrapper = tape.choice(WRAPPERS, "wrapper")
     sc.acc2 = tape.choice(["Sum", "Count", "Histogram", "Mean"], "acc2")
-    if sc.acc in ("Vectorize", "VectorizeStore"):
+    if sc.acc in ("Vectorize", "VectorizeStore", "Graph"):
         sc.acc2 = sc.acc
     sc.bufsize = tape.choice([1000, 1, None], "bufsize")
     sc.ops = []
@@ -611,6 +614,8 @@ def gen_acc(tape, sc):
 
 def make_value(sc, x, ck, serial):
     data = (x, x + 1) if sc.acc in ("Vectorize", "VectorizeStore") else x
+    if sc.acc == "Graph":
+        data = ((x,), (serial,))
     if ck == "bare":
         return data
     if ck == "empty":
